@@ -129,7 +129,7 @@ func init() {
 		}})
 	reg(&sim.SimCheck{Prop: "C13", Workload: "c13", Profile: func(th bool) *sim.Profile {
 		p := advProfile(merge(noBare, map[string]int{"support": 20, "mutate": 15}), 500, 3)(th)
-		p.CommitFailures = true
+		p.CommitFailures, p.SplitHandoff = true, true
 		return p
 	},
 		QuickCases: 3000, ThoroughCases: 60000,
